@@ -28,6 +28,8 @@ func propC17(c *Ctx) {
 		rsa := c.Rule("scanner-agree", "every state function of the validating scanner has, for each of the 256 byte values, the effects and the result of the state function of the same name in encoding/json (abstract interpretation of both over the powerset of byte values; conditions on other state are opaque, named branches)", 30)
 		rta := c.Rule("table-agree", "the character class tables of the encoder (safeSet, htmlSafeSet) equal encoding/json's entry by entry", 2)
 		ruleScannerAgree(c, rsa, rta)
+		rse := c.Rule("strconv-err", "every strconv parsing call of the json package uses its error result: an out-of-range number is reported as encoding/json reports it", 1)
+		ruleStrconvErr(c, rse)
 		rpr := c.Rule("pool-reset", "a value the json package recycles through a sync.Pool is fully reset on every path, the error paths included: the partial output of a failed Marshal never starts the next document", 0)
 		rulePoolReset(c, rpr, func(pp string) bool { return pp == jsonPath })
 	}()
